@@ -1,6 +1,7 @@
 ------------------------------- MODULE C17_Judge ------------------------------
 (* Facade half of C17: the facade selects the active table exactly when some pump or
    blower is on.  record: on = << [cls |-> "PUMP"|"BLOWER", type, raw, label] ... >>,
+   other = the same for the other user devices (lights), which do not count,
    mode = "active" | "idle" | "mixed" (the live settings compared with both tables)      *)
 EXTENDS Naturals, Sequences, FiniteSets, TLC, Json, IOUtils
 Recs == ndJsonDeserialize(IOEnv.GV_RECS)
